@@ -507,6 +507,11 @@ def gen_loc_file(rng):
                 cu.add(0x2e, [(0x3c, 0x0c, b'\x01', None)], label='nested_decl')
             fe = bytes([0x91]) + sleb(rng.choice([-24, 16]))
             cu.add(0x34, [(0x02, 0x0a if ver < 4 else 0x18, bytes([len(fe)]) + fe, None)], label='local')
+            if rng.random() < 0.5:
+                # the same through a list: the remark about the missing frame base belongs to the list dump as well
+                off = len(loc)
+                loc += struct.pack(A, 4) + struct.pack(A, 0x20) + struct.pack(E + 'H', len(fe)) + fe + struct.pack(A, 0) * 2
+                cu.add(0x34, [(0x02, lform, struct.pack(O, off), None)], label='local_list')
         nr = rng.choice([0, 1, 2])
         for k in range(nr):
             off = len(rngs)
